@@ -71,13 +71,21 @@ Check(c, o) ==
   IN v1 \o v2 \o v3 \o v4
 
 \* ---- case spaces (enumerated by TLC, executed by the harness)
+\* nested networks on ONE base address, narrow and wide, in both list orders (rev: the harness configures the lists
+\* reversed): whatever a filter does to redundant-looking entries, the wider one still counts
+NestAllow == {[p |-> 0, len |-> 1, single |-> FALSE], [p |-> 0, len |-> 2, single |-> FALSE], [p |-> 1, len |-> 1, single |-> FALSE]}
+NestDeny  == {[p |-> 0, len |-> 0, single |-> FALSE], [p |-> 0, len |-> 1, single |-> FALSE], [p |-> 0, len |-> 2, single |-> FALSE],
+              [p |-> 0, len |-> 3, single |-> TRUE]}
+OrderCases == [allow : SUBSET NestAllow, deny : SUBSET NestDeny, malformed : {"none"}, mkind : {"badip"}, peer : Hosts,
+               xff : {"absent"}, xri : {"absent"}, family : {"v4", "v6", "mappedlist"}, rev : BOOLEAN,
+               token : {FALSE}, authz : {"absent"}, endpoint : {"backends"}, method : {"GET"}]
 IpCases0 == [allow : SUBSET AllowCand, deny : SUBSET DenyCand, malformed : Malformed, mkind : MalKinds, peer : Peers,
-             xff : Forged, xri : {"absent", "h0", "h5"}, family : Families,
+             xff : Forged, xri : {"absent", "h0", "h5"}, family : Families, rev : {FALSE},
              token : {FALSE}, authz : {"absent"}, endpoint : {"backends"}, method : {"GET"}]
 \* the forged-header dimensions are only crossed with well-formed lists and one malformed spelling
 IpCases == {c \in IpCases0 : /\ (c.malformed = "none" => c.mkind = "badip")
                              /\ (c.mkind # "badip" => (c.xff = "absent" /\ c.xri = "absent" /\ c.family = "v4"))}
 AuthCases == [allow : {{}, {[p |-> 0, len |-> 1, single |-> FALSE]}}, deny : {{}}, malformed : {"none"}, mkind : {"badip"}, peer : {1, 6},
-              xff : {"absent"}, xri : {"absent"}, family : {"v4"},
+              xff : {"absent"}, xri : {"absent"}, family : {"v4"}, rev : {FALSE},
               token : BOOLEAN, authz : Authz, endpoint : Endpoints, method : Methods]
 =============================================================================
